@@ -94,7 +94,8 @@ func (g *Circle) Contains(obj Object) bool {
 	case *SimplePoint:
 		return g.containsPoint(other.Center())
 	case *Circle:
-		return other.Distance(g) < (other.meters + g.meters)
+		// every point of other is within g: centre distance + other's radius
+		return geoDistancePoints(g.center, other.center)+other.meters <= g.meters
 	case Collection:
 		for _, p := range other.Children() {
 			if !g.Contains(p) {
@@ -113,8 +114,10 @@ func (g *Circle) Intersects(obj Object) bool {
 	switch other := obj.(type) {
 	case *Point:
 		return g.containsPoint(other.Center())
+	case *SimplePoint:
+		return g.containsPoint(other.Center())
 	case *Circle:
-		return other.Distance(g) <= (other.meters + g.meters)
+		return geoDistancePoints(g.center, other.center) <= (other.meters + g.meters)
 	case Collection:
 		for _, p := range other.Children() {
 			if g.Intersects(p) {
